@@ -37,6 +37,18 @@ PROPS = {
              "(min,max,arg,rank) or within the DESIGN 5.1 bound (zscore) / 2ulp (minmaxnorm) with a brute-force window evaluation. "
              "distinct = (function, type combo, len bucket, window, min_periods, path, value class/null pattern)",
     ),
+    "C04": dict(
+        bin="c04",
+        quick=NATIVE_Q, thorough=NATIVE_T,
+        floors={"value.ts_vcov": 100, "value.ts_vcorr": 100, "value.ts_vregx_beta": 100, "value.ts_vregx_resid_std": 50,
+                "value.ts_vregx_resid_skew": 20, "value.ts_vregx_all.2": 50, "value.ts_vreg_resid_mean": 50, "value.ts_vtsf": 100,
+                "perfect_linear_series": 5, "long_histories": 1},
+        rule="pairs (y, x) of equal-length series with independent null patterns: independent / exactly collinear / noisy-collinear / "
+             "constant regressor; sweep (len 0..N x window 2..len+2 x min_periods {None,0..w}) + random (len<=70) + long histories; "
+             "trend family on single series incl. exactly linear ones. Every position compared with OLS from scratch on the "
+             "pairwise-complete window (centred two-pass), bound per DESIGN 5.1; undefined statistics are unconstrained and counted. "
+             "distinct = (function, type combo, len bucket, window, min_periods, path, relation/value class/null patterns)",
+    ),
 }
 
 for _k in list(PROPS):
